@@ -149,6 +149,27 @@ class Prog:
             self.emit(f"let mut v{x}{': ' + ann if ann else ''} = {expr};")
         return x
 
+    def wrap(self, h, mode, wrappers):
+        """`WithoutShrink(&h)` / `WithoutDealloc(WithoutShrink(&mut *h))` …: the wrappers forward the scope traits of what they
+        hold, so in the calculus the wrapper IS the (re)borrow it holds (`borrow(_mut)_with_settings` of the handle)"""
+        owner = "Bump" if self.info[h]["kind"] == "bump" else "BumpScope"
+        name = "borrow_with_settings" if mode == "shr" else "borrow_mut_with_settings"
+        self.methods.add((owner, name))
+        x = self.fresh(); self.stmts.append(("call", x, h, "viewSame", owner, name))
+        isref = self.info[h]["isref"]
+        inner = (("&*" if isref else "&") if mode == "shr" else ("&mut *" if isref else "&mut ")) + f"v{h}"
+        for w in reversed(wrappers): inner = f"{w}({inner})"
+        self.info[x] = {"kind": self.info[h]["kind"], "isref": False, "wrapper": tuple(wrappers), "ret": "scopeRef"}
+        self.emit(f"let mut v{x} = {inner};"); return x
+
+    def helper_alloc(self, h):
+        """`alloc_through(w)`: the generic `fn f<'a>(a: impl BumpAllocatorTypedScope<'a>) -> BumpBox<'a, str>` of the program header,
+        called with the wrapper by value (= the trait's `alloc_str` in the calculus)"""
+        self.methods.add(("BumpAllocatorTypedScope", "alloc_str"))
+        x = self.fresh(); self.stmts.append(("call", x, h, "alloc", "BumpAllocatorTypedScope", "alloc_str"))
+        self.info[x] = {"kind": "val", "isref": False, "ret": "box"}
+        self.emit(f"let mut v{x} = alloc_through(v{h});"); return x
+
     def vconv(self, v, row):
         """a conversion between lifetime-carrying values (a row of the table's valueConvs)"""
         form, inp, name, out = row[0], row[1], row[2], row[3]
@@ -226,7 +247,7 @@ class Prog:
         """does the Rust type of the variable have drop glue (an implicit drop at the end of its block is a use)?"""
         i = self.info.get(v, {})
         k = i.get("kind")
-        if i.get("moved"): return False
+        if i.get("moved") or i.get("wrapper"): return False
         if k in ("guard", "claim", "poolGuard", "coll", "pool"): return True
         if k == "bump": return not i.get("isref")
         if k == "val": return i.get("ret") == "box"
@@ -251,9 +272,10 @@ class Prog:
 RUST_HEAD = """{header}#![forbid(unsafe_code)]
 #![allow(unused, unused_must_use)]
 use life_cases::*;
-use bump_scope::{{Bump, BumpScope, BumpPool, BumpVec, BumpString, MutBumpVec, MutBumpVecRev, MutBumpString, BumpBox, FixedBumpVec, FixedBumpString, settings::BumpSettings}};
+use bump_scope::{{Bump, BumpScope, BumpPool, BumpVec, BumpString, MutBumpVec, MutBumpVecRev, MutBumpString, BumpBox, FixedBumpVec, FixedBumpString, WithoutShrink, WithoutDealloc, settings::BumpSettings}};
 use bump_scope::traits::{{BumpAllocator, BumpAllocatorCore, BumpAllocatorScope, BumpAllocatorTypedScope, MutBumpAllocatorTypedScope}};
 use bump_scope::stats::{{Stats, Chunk, ChunkPrevIter, ChunkNextIter, AnyStats, AnyChunk, AnyChunkPrevIter, AnyChunkNextIter}};
+fn alloc_through<'a>(a: impl BumpAllocatorTypedScope<'a>) -> BumpBox<'a, str> {{ a.alloc_str("s") }}
 """
 
 # ------------------------------------------------------------------------------------------------
@@ -267,6 +289,7 @@ class Case:
         self.ends = getattr(prog, "ends", True) if prog is not None else True
         self.methods = set(prog.methods) if prog is not None else set()
         self.focus = None  # derived corpus: the table method whose result the program misuses
+        self.impls = set() # derived corpus: the scopeImpls rows (implementor classes) the program's receiver goes through
 
 def producers_of(table, owner):
     """alloc-class methods of an owner, as (name, recv)"""
@@ -694,6 +717,21 @@ def su_poolguard(P):
 SETUPS = [("bump", su_bump), ("&mut Bump", su_bump_mutref), ("&Bump", su_bump_ref), ("guard.scope()", su_scope), ("as_scope", su_scope_shared),
           ("as_mut_scope", su_scope_asmut), ("by_value", su_scope_owned), ("scoped-closure", su_scope_closure), ("guard", su_guard),
           ("claim", su_claim), ("scope.claim", su_claim_scope), ("pool", su_pool), ("pool.get", su_poolguard)]
+# receivers that are wrappers (`WithoutShrink`, `WithoutDealloc`, nested) around a shared / exclusive reborrow of a handle
+WRAPPERS = [("WithoutShrink",), ("WithoutDealloc",), ("WithoutDealloc", "WithoutShrink")]
+def wrapped_setup(base, mode, wrappers):
+    def su(P, **kw):
+        st = base(P, **kw); h = st["chain"][-1]
+        w = P.wrap(h["var"], mode, wrappers)
+        e = El(w, h["kind"], mode); e["wrapper"] = tuple(wrappers)
+        st["chain"].append(e); return st
+    return su
+for _ws in WRAPPERS:
+    _n = "(".join(_ws) + "({})" + ")" * (len(_ws) - 1)
+    SETUPS += [(_n.format("&bump"), wrapped_setup(su_bump, "shr", _ws)), (_n.format("&*scope"), wrapped_setup(su_scope, "shr", _ws)),
+               (_n.format("&mut *scope"), wrapped_setup(su_scope, "mut", _ws)),
+               ("scoped-closure/" + _n.format("&*s"), wrapped_setup(su_scope_closure, "shr", _ws)),
+               ("scoped-closure/" + _n.format("s"), wrapped_setup(su_scope_closure, "mut", _ws))]
 # setups in which the whole alloc family is instantiated (the other setups get the plain `alloc` / `alloc_str` only)
 FULL_ALLOC_SETUPS = {"bump", "guard.scope()", "by_value", "scoped-closure"}
 
@@ -704,6 +742,9 @@ TRAITS = ("BumpAllocator", "BumpAllocatorCore", "BumpAllocatorScope", "BumpAlloc
 DERIVING_OPS = ("alloc", "mkGuard", "guardScope", "viewScope", "viewSame", "claim", "poolGet")
 
 def receives(sig, owner, o):
+    if o.get("wrapper"):
+        # only the scope traits reach through a wrapper
+        return owner in ("BumpAllocatorTypedScope", "MutBumpAllocatorTypedScope") and sig.recv != "value" and not (sig.recv == "refMut" and o["acc"] == "shr")
     kinds = OWNER_KINDS.get(owner, [])
     k = o["kind"]
     if k == "bump" and "bumpref" in kinds and o["acc"] != "own": pass
@@ -732,6 +773,7 @@ def use_result(P, r):
 
 def simple_events(a):
     v, k, acc = a["var"], a["kind"], a["acc"]
+    if a.get("wrapper"): return []
     if k == "bump" and acc != "shr":
         ev_ = [("reset", lambda P: P.call(v, "Bump", "reset")), ("reset_to_start", lambda P: P.call(v, "Bump", "reset_to_start"))]
         if acc == "own": ev_.append(("drop", lambda P: P.drop(v)))
@@ -747,6 +789,7 @@ def simple_events(a):
 def wrap_events(a):
     """events that open a scope on `a`, run `inner` inside it and close it; they return what `inner` carried out"""
     v, k, acc = a["var"], a["kind"], a["acc"]
+    if a.get("wrapper"): return []
     if acc == "shr" or k not in ("bump", "scope", "claim", "poolGuard"): return []
     def guard_wrap(P, inner):
         g2 = P.call(v, owner_of(a), "scope_guard"); y = inner(P); P.drop(g2); return y
@@ -769,6 +812,25 @@ def derivations(table):
             if o_ == ty:
                 res.append(((ty, n), ("coll", mode), (lambda P, o, ty=ty, mode=mode, n=n: P.call(P.coll(o["var"], mode, ty), ty, n))))
     return res
+
+def impl_classes(chain):
+    """the BumpAllocatorCoreScope implementors (scopeImpls rows) the scope traits go through for this receiver"""
+    o = chain[-1]
+    res = set()
+    if o.get("wrapper"):
+        res |= {"wrapper:" + w for w in o["wrapper"]}
+    k, acc = o["kind"], o["acc"]
+    if k == "bump": res.add({"shr": "refBump", "mut": "refMutBump"}.get(acc, "-"))
+    if k in ("scope", "claim", "poolGuard"):
+        res.add("scope")
+        if k == "scope" and acc == "shr": res.add("refB")
+        if k == "scope" and acc == "mut": res.add("refMutB")
+    res.discard("-")
+    return res
+
+class HelperD:
+    """`alloc_through(wrapper)`: the wrapper goes by value into a generic function over `impl BumpAllocatorTypedScope<'a>`"""
+    ret = "box"
 
 class ConvD:
     """a derivation that continues a table method's result (a Stats / AnyStats / BumpBox<[T]> value) through a chain of value
@@ -826,21 +888,26 @@ def gen_derived(table, cases):
     for setup_name, su in SETUPS:
         probe = su(Prog(table)); o0 = probe["chain"][-1]; closure = probe.get("closure", False)
         convd = [(f_, d_, d_.make) for f_, d_ in conv_derivations(table, setup_name in CONV_FULL_SETUPS)]
-        for focus, sig, make in derivations(table) + convd:
+        wrapped = bool(o0.get("wrapper"))
+        helperd = [(("BumpAllocatorTypedScope", "alloc_str"), HelperD(), lambda P, o: P.helper_alloc(o["var"]))] if wrapped else []
+        for focus, sig, make in derivations(table) + convd + helperd:
             owner, name = focus
-            if isinstance(sig, ConvD):
+            if isinstance(sig, HelperD):
+                is_alloc = True; name = name + "(generic-helper)"
+            elif isinstance(sig, ConvD):
+                if wrapped: continue
                 if not receives(sig.base_sig, sig.base_focus[0], o0): continue
                 if sig.parts and setup_name not in CONV_FULL_SETUPS | {"scoped-closure", "by_value", "pool.get"}: continue
                 is_alloc = True
                 name = name + ("." + sig.parts[1] if sig.parts else "") + "<-" + "::".join(sig.base_focus) + ("" if len(sig.chain) < 2 else "~" + "~".join(r[2] for r in sig.chain[:-1]))
             elif isinstance(sig, tuple):      # a collection over the handle
-                if o0["kind"] not in ("bump", "scope") or (sig[1] == "mut" and o0["acc"] == "shr"): continue
+                if wrapped or o0["kind"] not in ("bump", "scope") or (sig[1] == "mut" and o0["acc"] == "shr"): continue
                 is_alloc = True
             else:
                 if not receives(sig, owner, o0): continue
                 is_alloc = sigs2lean.effect_class(owner, name) == "alloc"
             base = name[4:] if name.startswith("try_") else name
-            if is_alloc and not isinstance(sig, (tuple, ConvD)) and setup_name not in FULL_ALLOC_SETUPS and name not in ("alloc", "alloc_str", "alloc_iter_mut", "stats", "any_stats", "allocator"):
+            if is_alloc and not isinstance(sig, (tuple, ConvD, HelperD)) and setup_name not in FULL_ALLOC_SETUPS and name not in ("alloc", "alloc_str", "alloc_iter_mut", "stats", "any_stats", "allocator"):
                 continue
             tagged = setup_name == "&mut Bump" and (sig.base_focus[0] if isinstance(sig, ConvD) else owner) in ("BumpAllocatorTypedScope", "MutBumpAllocatorTypedScope")
             def add(form, build, through_o=False):
@@ -853,6 +920,7 @@ def gen_derived(table, cases):
                 c = Case(f"derived/{setup_name}/{owner}{lab}::{name}/{form}", None, P, route=form.split("@")[0], producer=f"{owner}::{name}",
                          context="derived:" + setup_name)
                 c.focus = focus
+                c.impls = impl_classes(probe["chain"]) if (focus[0] in ("BumpAllocatorTypedScope", "MutBumpAllocatorTypedScope") or isinstance(sig, tuple) or (isinstance(sig, ConvD) and sig.parts)) else set()
                 if tagged and through_o: c.tag = REFMUT_TAG
                 cases.append(c)
             def prefix(P):
@@ -920,6 +988,7 @@ def gen_derived(table, cases):
 
 def P_is_box(table, focus, sig):
     if isinstance(sig, ConvD): return False
+    if isinstance(sig, HelperD): return True
     if isinstance(sig, tuple): return table[focus].ret == "box"
     return sig.ret == "box"
 
@@ -1253,6 +1322,8 @@ def load_table(ctx=None):
                              "and the calculus' checker uses that table")
         return table_from_generated()
 
+IMPL_LINE = re.compile(r'^\s*⟨\.(\w+), \.(\w+), "([^"]+)", \d+⟩,?\s*$')
+
 def sig_entries(text):
     """(owner, method) -> the table row, from the text of a Gen/Sigs.lean"""
     res = {}
@@ -1260,13 +1331,20 @@ def sig_entries(text):
         m = SIG_LINE.match(l)
         if m: res[(m.group(1), m.group(2))] = m.groups()[2:8]
     for r in conv_rows(text): res[(r[1], r[2])] = (r[0], r[3], tuple(r[4]))
+    # BumpAllocatorCoreScope implementors: keyed by implementor class (the wrappers by name), see `impl_classes`
+    for l in text.splitlines():
+        m = IMPL_LINE.match(l)
+        if m:
+            ty, lt, target = m.groups()
+            key = "wrapper:" + target.split("<")[0].strip() if ty == "wrapper" else ty
+            res[("impl", key)] = (ty, lt, target)
     return res
 
 def changed_methods(old_text, new_text):
     """methods whose table row differs between two generated tables (added / removed / changed), and whether anything else differs"""
     a, b = sig_entries(old_text or ""), sig_entries(new_text or "")
     changed = {k for k in set(a) | set(b) if a.get(k) != b.get(k)}
-    strip = lambda t: "\n".join(l for l in (t or "").splitlines() if not SIG_LINE.match(l) and not CONV_LINE.match(l))
+    strip = lambda t: "\n".join(l for l in (t or "").splitlines() if not SIG_LINE.match(l) and not CONV_LINE.match(l) and not IMPL_LINE.match(l))
     return changed, strip(old_text) != strip(new_text)
 
 def run_life(ctx, budget=None, focus=None, label="life", classic_full=False):
@@ -1283,7 +1361,8 @@ def run_life(ctx, budget=None, focus=None, label="life", classic_full=False):
     if classic_full:
         cases = [c for c in corpus if not c.context.startswith("derived:")]
     elif focus is not None:
-        primary = [c for c in corpus if c.focus in focus]
+        impl_focus = {k for (a, k) in focus if a == "impl"}     # changed implementor rows: every program whose receiver goes through one
+        primary = [c for c in corpus if c.focus in focus or (c.impls & impl_focus)]
         rng = random.Random(ctx.seed)
         secondary = [c for c in corpus if c.focus not in focus and (c.methods & focus)]
         rng.shuffle(secondary)
